@@ -123,7 +123,18 @@ func c11tls(c *an.Ctx) {
 				c.OK(exec, "IDENTIFY exempt (negotiates TLS)", hc.Pos(), "")
 				continue
 			}
-			q := &an.PathQ{Fn: exec, StartEntry: true, Sink: func(in ssa.Instruction, _ *an.PathState) bool { return in == hc.(ssa.Instruction) },
+			dynamic := an.StaticCallee(hc) == nil // one call site for every handler, through a method value the path chose
+			q := &an.PathQ{Fn: exec, StartEntry: true, AllAlias: dynamic, FullOnly: dynamic,
+				Sink: func(in ssa.Instruction, ps *an.PathState) bool {
+					if in != hc.(ssa.Instruction) {
+						return false
+					}
+					if dynamic {
+						f := calleeOnPath(hc, ps)
+						return f == nil || f == h || f.Origin() == h
+					}
+					return true
+				},
 				CutEdge: func(e an.Edge, st *an.PathState) bool {
 					// through the success edge of a gate function, or an edge of Exec itself on which the policy is satisfied
 					return an.EdgeIn(e, succ) || policyOK(st.CmpsOnEdge(e))
